@@ -12,6 +12,15 @@ THEOREMS = ["C17.c17_partition_tables", "C17.c17_masks_nonzero", "C17.c17_access
 def run(ctx, replay_case):
     rnd = random.Random(ctx.seed)
     L = gen.load_layout("generated")
+    P = gen.load_layout("pinned")
+    # the attribute types are the pinned ones: a type that vanished or is no longer a bit-field is reported, not skipped
+    pinned_bitfields = [pn for pn in P["prim_order"] if P["prims"][pn]["flavour"] == "bitfield"]
+    for pn in pinned_bitfields:
+        if pn not in L["prims"] or L["prims"][pn]["flavour"] != "bitfield":
+            ctx.violations.append({"kind": "concrete", "signature": f"attr-type:{pn}",
+                                   "what": f"{pn} is an attribute (bit-field) type in the pinned layout but "
+                                           + ("is missing from the code" if pn not in L["prims"] else f"is now of flavour {L['prims'][pn]['flavour']}"),
+                                   "replay": {"type": pn}})
     ops = []
     for pn in L["prim_order"]:
         p = L["prims"][pn]
